@@ -6,6 +6,8 @@ import (
 	"math/rand"
 	"testing"
 
+	commonpb "go.temporal.io/api/common/v1"
+	enumspb "go.temporal.io/api/enums/v1"
 	historypb "go.temporal.io/api/history/v1"
 	namespacepb "go.temporal.io/api/namespace/v1"
 	"go.temporal.io/api/workflowservice/v1"
@@ -149,6 +151,38 @@ func TestACL(t *testing.T) {
 						check(v, msg, forb, normPath("."+bp.String()+".<events>."+ep.String()))
 					}
 					classes = append(classes, m.Name+":"+v.name+":"+bp.String()+"<"+ep.String()+">")
+				}
+			}
+		}
+		// undecodable history blobs: a blob the proxy cannot decode must not let a forbidden name elsewhere
+		// in the same request through (the walk stops at the bad blob: the request has to be refused)
+		corrupt := []*commonpb.DataBlob{
+			{EncodingType: enumspb.ENCODING_TYPE_PROTO3, Data: []byte{0x0a, 0xff, 0xff, 0xff, 0x01}},
+			{EncodingType: enumspb.ENCODING_TYPE_PROTO3, Data: []byte("\x0a\x05\x08\x01\x1a")},
+			{EncodingType: enumspb.ENCODING_TYPE_JSON, Data: []byte("{not json")},
+			{EncodingType: enumspb.EncodingType(77), Data: []byte("whatever")},
+		}
+		for vi, v := range variants {
+			for bi, bp := range blobPaths {
+				for pi, p := range paths {
+					cb := corrupt[(vi+bi+pi)%len(corrupt)]
+					msg := gen.New(r.md)
+					gen.SetString(msg, p, v.allowed)
+					parent, f := gen.Descend(msg, bp)
+					if f.IsList() {
+						parent.Mutable(f).List().Append(protoreflect.ValueOfMessage(proto.Clone(cb).ProtoReflect()))
+						// and a well-formed batch naming the forbidden namespace after the corrupt one
+						ev := &historypb.HistoryEvent{EventId: 9}
+						gen.SetString(ev, evPaths[(bi+pi)%len(evPaths)], v.forbidden)
+						gen.FillNamespaceSites(ev, v.forbidden)
+						parent.Mutable(f).List().Append(protoreflect.ValueOfMessage(gen.EncodeEvents([]*historypb.HistoryEvent{ev}).ProtoReflect()))
+					} else {
+						parent.Set(f, protoreflect.ValueOfMessage(proto.Clone(cb).ProtoReflect()))
+					}
+					fillOutsideBlobs(msg, v.allowed)
+					gen.SetString(msg, p, v.forbidden)
+					check(v, msg, true, "undecodable-blob-plus-forbidden:"+normPath("."+p.String()))
+					counts["undecodable_blob_cases"]++
 				}
 			}
 		}
